@@ -816,9 +816,14 @@ func generate(seed int64, n int) []*Case {
 
 func main() {
 	share := flag.Int("soak-share", 1, "each case is translated by 16/share of the 16 soak goroutines (1, 2 or 4)")
+	fixp := flag.Bool("fixperiod", false, "print the windows one FixPeriodPlanner hands down when executed again under one context / fresh contexts, and exit")
 	f := hx.ParseFlags()
 	out := hx.OpenOut(f.Out)
 	defer out.Close()
+	if *fixp {
+		out.Put(fixPeriod())
+		return
+	}
 	var cases []*Case
 	if f.Cases != "" {
 		hx.ReadLines(f.Cases, func(b []byte) {
